@@ -184,7 +184,9 @@ impl GraphBlock {
                     "#".repeat((*level as usize).min(6)),
                     // a heading is one line: text that came from several lines (an item's text
                     // turned into a heading) is joined by spaces
-                    inlines_to_markdown(inlines, options).replace('\n', " ")
+                    protect_trailing_hashes(
+                        &inlines_to_markdown(inlines, options).replace('\n', " ")
+                    )
                 )
             }
             GraphBlock::HorizontalRule => format!("{}\n", "-".repeat(72)),
@@ -465,6 +467,17 @@ impl GraphInline {
     }
 }
 
+// "# Invoice #": a run of "#" at the end of a heading, after a space, is read as the optional
+// closing sequence and dropped; escaped, it stays text
+fn protect_trailing_hashes(text: &str) -> String {
+    let body = text.trim_end_matches('#');
+    if body.len() < text.len() && (body.is_empty() || body.ends_with(' ')) {
+        format!("{}\\{}", body, &text[body.len()..])
+    } else {
+        text.to_string()
+    }
+}
+
 fn escape_brackets(inlines: &GraphInlines) -> GraphInlines {
     inlines
         .iter()
@@ -527,6 +540,9 @@ fn left_pad_and_prefix(text: &str, marker: char) -> String {
             // a rule right after the marker: "- ---" is itself a rule, "- ___" is an item
             // that holds one
             result.push_str(&format!("{} {}\n", marker, "_".repeat(line.len())));
+        } else if n == 0 && marker == '-' && line == "--" {
+            // "- --" is a rule: the item's text "--" is escaped
+            result.push_str("- \\--\n");
         } else if n == 0 {
             result.push_str(&format!("{} {}\n", marker, line));
         } else {
